@@ -35,6 +35,28 @@ type Case struct {
 	Committed []uint64 `json:"committed,omitempty"` // custom allocator: bytes it was last asked for, after each op
 	Fresh    []int    `json:"fresh,omitempty"`     // after each successful grow: first byte of the new region as the host reads it (-1: no growth)
 	Err      string   `json:"err,omitempty"`
+	// Front: the guest operations (grow, size, load8, store8) are called THROUGH another module, which imports them and
+	// has a memory of its own (3 pages, max 6): the instruction executes in the module under test, the host entered the
+	// front module. FrontPg: the front module's own size before each op and at the end (must stay 3).
+	Front   bool     `json:"front"`
+	FrontPg []uint32 `json:"front_pg,omitempty"`
+}
+
+func frontMod() []byte {
+	m := &c.Mod{}
+	six := uint32(6)
+	m.Types = [][]byte{c.FT(nil, c.B(c.I32)), c.FT(c.B(c.I32), c.B(c.I32)), c.FT(c.B(c.I32, c.I32), nil)}
+	m.Imports = [][]byte{c.ImportFunc("b", "size", 0), c.ImportFunc("b", "load8", 1), c.ImportFunc("b", "grow", 1), c.ImportFunc("b", "store8", 2)}
+	m.Funcs = [][]byte{c.U32(0), c.U32(1), c.U32(1), c.U32(2)}
+	m.Mems = [][]byte{c.MemLimits(3, &six)}
+	m.Exports = [][]byte{c.Export("size", 0, 4), c.Export("load8", 0, 5), c.Export("grow", 0, 6), c.Export("store8", 0, 7), c.Export("mem", 2, 0)}
+	m.Codes = [][]byte{
+		c.Code(nil, c.Call(0)),
+		c.Code(nil, c.LocalGet(0), c.Call(1)),
+		c.Code(nil, c.LocalGet(0), c.Call(2)),
+		c.Code(nil, c.LocalGet(0), c.LocalGet(1), c.Call(3)),
+	}
+	return m.Bytes()
 }
 
 func memMod(min uint32, max *uint32) []byte {
@@ -108,8 +130,8 @@ func guard(f func() []any) (res []any) {
 	return f()
 }
 
-func runCase(ctx context.Context, cf Cfg, engine string, ops [][]any) Case {
-	cs := Case{Cfg: cf, Engine: engine, Ops: ops}
+func runCase(ctx context.Context, cf Cfg, engine string, ops [][]any, front bool) Case {
+	cs := Case{Cfg: cf, Engine: engine, Ops: ops, Front: front}
 	var rc wazero.RuntimeConfig
 	if engine == "compiler" {
 		rc = wazero.NewRuntimeConfigCompiler()
@@ -140,7 +162,7 @@ func runCase(ctx context.Context, cf Cfg, engine string, ops [][]any) Case {
 				err = fmt.Errorf("PANIC %v", e)
 			}
 		}()
-		mod, err = r.Instantiate(ictx, memMod(cf.Min, mx))
+		mod, err = r.InstantiateWithConfig(ictx, memMod(cf.Min, mx), wazero.NewModuleConfig().WithName("b"))
 	}()
 	if err != nil {
 		cs.Err = err.Error()
@@ -148,12 +170,27 @@ func runCase(ctx context.Context, cf Cfg, engine string, ops [][]any) Case {
 	}
 	cs.Accepted = true
 	mem := mod.Memory()
+	entry := mod
+	var frontMem api.Memory
+	if front {
+		fm, err := r.InstantiateWithConfig(ctx, frontMod(), wazero.NewModuleConfig().WithName("front"))
+		if err != nil {
+			cs.Err = "front module: " + err.Error()
+			cs.Accepted = false
+			return cs
+		}
+		entry, frontMem = fm, fm.Memory()
+	}
 	call := func(name string, args ...uint64) ([]uint64, error) {
-		return mod.ExportedFunction(name).Call(ctx, args...)
+		return entry.ExportedFunction(name).Call(ctx, args...)
 	}
 	for _, op := range ops {
 		pg, _ := mem.Grow(0)
 		cs.Pg = append(cs.Pg, pg)
+		if front {
+			p, _ := frontMem.Grow(0)
+			cs.FrontPg = append(cs.FrontPg, p)
+		}
 		u := func(i int) uint64 { return op[i].(uint64) }
 		var o []any
 		switch op[0].(string) {
@@ -287,6 +324,10 @@ func runCase(ctx context.Context, cf Cfg, engine string, ops [][]any) Case {
 		if am != nil {
 			cs.Committed = append(cs.Committed, am.committed)
 		}
+	}
+	if front {
+		p, _ := frontMem.Grow(0)
+		cs.FrontPg = append(cs.FrontPg, p)
 	}
 	return cs
 }
@@ -442,7 +483,7 @@ func main() {
 			go func(i int) {
 				defer wg.Done()
 				defer func() { <-sem }()
-				res[i] = runCase(ctx, jobs[i].cf, jobs[i].eng, jobs[i].ops)
+				res[i] = runCase(ctx, jobs[i].cf, jobs[i].eng, jobs[i].ops, !jobs[i].huge && jobs[i].cf.Limit >= 6 && (i/2)%2 == 1)
 				if jobs[i].huge {
 					debug.FreeOSMemory()
 				}
